@@ -741,7 +741,7 @@ fn groups(depth: usize, num: u64, innermost: &[u8]) -> Vec<u8> {
 fn c10_one(ctx: &Ctx, m: usize, k: u64, frag: &mut Frag) {
     let c = pc();
     let o = &c.ops[m];
-    let f_t = (4 * o.size_of).max(256);
+    let f_t = (4 * c.ops.iter().map(|x| x.size_of).max().unwrap_or(64)).max(256);
     let mut rng = Rng::new(ctx.seed ^ 0x1010 ^ k ^ (m as u64) << 24);
     let mut ord = 0u64;
     // depth probes on the recursive message (first case of that message only)
